@@ -114,6 +114,15 @@ _CHAIN = ["fragment Ta on AnchorObj { ...Tb }", "fragment Tb on AnchorObj { ...T
 NL_SDL = ("union U = A | B | C\ntype Query { a: A b: B u: U }\n"
           "type A { x: Int y: String z: A k: Int }\ntype B { x: String y: String z: B k: String }\n"
           "type C { x: String y: String z: C k: String }\n")
+# seeded C05-h: one response key twice with related argument literals (gen_valid.object_argument_forms)
+_OA = [f for f in gen_valid.object_argument_forms(random.Random(7))
+       if f[0].endswith("-direct") or f[0].split("-")[0] in ("subset", "empty")]
+_W += [gen_valid.render({"defs": defs}, "plain") for _n, defs in _OA]
+# seeded C06-h: required input object fields written in every order (gen_valid.required_order_forms)
+_RO = [f for f in gen_valid.required_order_forms(random.Random(7))
+       if not f[0].startswith(("argument-optional-", "list-default-"))]
+_W += [gen_valid.render({"defs": defs}, "plain") for _n, defs in _RO]
+
 _NL = [
     # 5e820aa: a nested conflict reported on a document without locations (sorted by loc raised TypeError)
     ("{ a { z { k: x } } a { z { k: y } } }", None),
